@@ -19,6 +19,7 @@ def handle : List String → String
   | ["b23t", p] => showRet (b23t (fx p))
   | ["region", t, p] => showRet (region (fx t) (fx p))
   | ["parr", v, ch] => " ".intercalate ((powerArray (fx v) (parseChain ch)).map hexOfFloat)
+  | ["fma", a, b, c] => hexOfFloat (fmaExact (fx a) (fx b) (fx c))
   | ["chainwf", ch] => if chainWF (parseChain ch) then "true" else "false"
   | _ => "bad-op"
 
